@@ -937,6 +937,9 @@ def gen_linalg(rng, cx=False):
         if b:
             for argnum in (0, 1):
                 yield case("solve", [well_cond(rng, (2, 2), cx), A(rng, b + (2, 3), "any", cx)], ns="linalg", argnum=argnum, tags=["bcast_a"])
+        if b:
+            for argnum in (0, 1):
+                yield case("solve", [well_cond(rng, b + (2, 2), cx), A(rng, (2,), "any", cx)], ns="linalg", argnum=argnum, tags=["vec_b_batched_a"])
         for (m, n) in ((2, 2), (3, 2), (2, 3), (3, 3), (1, 3), (3, 1)):
             shp = b + (m, n)
             yield case("pinv", [sep_sv(rng, shp, cx)], ns="linalg")
